@@ -34,14 +34,30 @@ class SM:
         return "SM%d" % self.i
 
 
+class Hold:
+    """the manager a generator-based manager's own generator holds (no hooks registered for it)"""
+
+    def __bool__(self):
+        return False
+
+    def __enter__(self):
+        return self
+
+    def __exit__(self, *a):
+        return False
+
+
 class World:
     def __init__(self):
         self.plain = {i: SM(i) for i in range(1, N + 1)}
         self.gcm_fn, self.gcm_unreg_fn = {}, {}
-        ns = {"contextlib": contextlib}
+        # every generator-based manager's generator holds a manager of its own around its yield: the frame handed to an
+        # unwrap_context_generator hook must show it (hooks such as pytest-trio's choose their result from frame.contexts)
+        self.hold = {i: Hold() for i in range(1, N + 1)}
+        ns = {"contextlib": contextlib, "HOLD": self.hold}
         for i in range(1, N + 1):
             for pre in ("g", "h"):
-                exec("@contextlib.contextmanager\ndef %s%d():\n    yield %d\n" % (pre, i, i), ns)
+                exec("@contextlib.contextmanager\ndef %s%d():\n    with HOLD[%d]:\n        yield %d\n" % (pre, i, i, i), ns)
             self.gcm_fn[i] = ns["g%d" % i]
             self.gcm_unreg_fn[i] = ns["h%d" % i]
             stackscope.unwrap_context_generator.register(ns["g%d" % i])(self.make_ucg(i))
@@ -51,6 +67,8 @@ class World:
         def hook(frame, context):
             case = TABLE["case"]
             LOG.append(["UG-inner" if context.inner_stack is not None else "UG-outermost", i])
+            if frame.pyframe.f_lasti >= 0 and [c.obj for c in frame.contexts] != [self.hold[i]]:
+                LOG.append(["UG-frame-lacks-its-contexts", i])
             return self.result(case, i)
         return hook
 
@@ -115,10 +133,14 @@ def install_logging():
     o_e, o_u = _extract.elaborate_context, _extract.unwrap_context
 
     def e(mgr, context):
+        if isinstance(mgr, Hold):
+            return o_e(mgr, context)          # the generators' own managers are not part of the modelled chain
         LOG.append(["E", WORLD.ident(mgr), context.inner_stack is not None, bool(context.children)])
         return o_e(mgr, context)
 
     def u(mgr, context):
+        if isinstance(mgr, Hold):
+            return o_u(mgr, context)
         LOG.append(["U", WORLD.ident(mgr), context.inner_stack is not None, bool(context.children)])
         return o_u(mgr, context)
 
